@@ -27,8 +27,7 @@
    - sweep_monitor_sound: smonitor is silent on every model transcript on which no poll ends Offline out of a
      non-Offline state (no_self_offline, a boolean on the transcript: the exact exclusion);
    - sweep_monitor_fixed_sound: the monitor with the one-line repair (a poll that ends Offline forgets `last`:
-     sweep_poll_fixed) is silent on EVERY model transcript; on transcripts without such polls both monitors agree
-     (smonitor_fixed_agrees).
+     sweep_poll_fixed) is silent on EVERY model transcript.
    No hypothesis on the applications beyond totality (apps_total): app_sends_data is not needed, the monitor itself
    discards what an application transmitted. *)
 From Coq Require Import Arith.
